@@ -117,9 +117,48 @@ pub fn model(s: &str) -> Expect {
     Expect::Style(st)
 }
 
+/// every word of the description that is not part of the syntax, with its class (true = a colour beyond the second);
+/// None when a word is one the statement does not settle
+fn offenders(s: &str) -> Option<Vec<(bool, String)>> {
+    let mut v = vec![];
+    let mut ncol = 0;
+    for word in s.split(is_ws).filter(|w| !w.is_empty()) {
+        match classify(word) {
+            Word::Unspecified => return None,
+            Word::Attr(..) => {}
+            Word::Color(_) => {
+                if ncol >= 2 {
+                    v.push((true, word.to_string()));
+                } else {
+                    ncol += 1;
+                }
+            }
+            Word::Unknown => v.push((false, word.to_string())),
+        }
+    }
+    Some(v)
+}
+
 pub fn check(s: &str) -> Result<&'static str, (String, String)> {
     let want = model(s);
     let got = anstyle_git::parse(s);
+    // a description with several offending words: the statement asks for "the error that names that word" for any
+    // other word - it does not say which offender is reported when there are two, so any of them (with its own class)
+    // is accepted
+    if let (Expect::Extra(_) | Expect::Unknown(_), Err(e)) = (&want, &got) {
+        let named = match e {
+            anstyle_git::Error::ExtraColor { word, .. } => Some((true, word.clone())),
+            anstyle_git::Error::UnknownWord { word, .. } => Some((false, word.clone())),
+            #[allow(unreachable_patterns)]
+            _ => None,
+        };
+        if let (Some(named), Some(all)) = (named, offenders(s)) {
+            if all.len() > 1 && all.contains(&named) {
+                let _ = format!("{e} {e:?}");
+                return Ok("rejected");
+            }
+        }
+    }
     match (&want, &got) {
         (Expect::Unspecified, _) => Ok("unspecified"),
         (Expect::Style(w), Ok(g)) => {
